@@ -53,6 +53,9 @@ HsOfRec(r) == IF "hs" \in DOMAIN r
               THEN [chunks |-> AbsChunks(r.hs.chunks), setp |-> r.hs.setp, p |-> Decode(r.hs.p)]
               ELSE NoHs
 
+Perr(r) == "hs" \in DOMAIN r /\ "perr" \in DOMAIN r.hs /\ r.hs.perr > 0
+ErrRow(row) == Len(row) >= 6 /\ SubSeq(row, 1, 6) = <<101, 114, 114, 111, 114, 58>>      \* "error:"
+
 ItemOf(j) == Item(j.k, Decode(j.t))
 RECURSIVE ItemsFrom(_, _, _)
 ItemsFrom(js, i, acc) == IF i > Len(js) THEN acc ELSE ItemsFrom(js, i + 1, Append(acc, ItemOf(js[i])))
@@ -216,7 +219,13 @@ ByteRec(r, pre, post) ==
                    HandlerBytes(r.ops) = Conv(text))
             /\ Chk(<<"C13 handler output is not framed on its own rows", t2.rows, Lines(text), t2.row, t2.col>>,
                    /\ ~t2.err
-                   /\ Trimmed(t2.rows) = <<TrimRight(term.row)>> \o Trimmed(Lines(text))
+                   /\ LET body == <<TrimRight(term.row)>> \o Trimmed(Lines(text)) IN
+                      \* a hand-written processor that rejects the command after writing: the library's
+                      \* `error:` line follows the output on a row of its own
+                      IF Perr(r) THEN /\ Len(t2.rows) = Len(body) + 1
+                                      /\ SubSeq(Trimmed(t2.rows), 1, Len(body)) = body
+                                      /\ ErrRow(t2.rows[Len(t2.rows)])
+                      ELSE Trimmed(t2.rows) = body
                    /\ Shows(t2, post.prompt, Len(post.prompt)))
       /\ Common(r, post, t2)
 
